@@ -324,7 +324,7 @@ def add_skips(rng, steps, unmet='env:SIM_NOT_SET'):
         nonlocal base
         base += 1
         return {'i': base, 'form': 'directive', 'pts': [], 'ps2': False, 'sep': 'none', 'dirs': [[sign, name, arg]]}
-    how = rng.choice(['all', 'all_requires', 'tail', 'region', 'inline', 'inline', 'head'])
+    how = rng.choice(['all', 'all_requires', 'tail', 'region', 'inline', 'inline', 'head', 'island'])
     n = len(steps)
     if how == 'all':
         steps.insert(0, block('+'))
@@ -341,6 +341,14 @@ def add_skips(rng, steps, unmet='env:SIM_NOT_SET'):
         steps.insert(a, block('+'))
     elif how == 'head':
         steps.insert(rng.randint(0, n), block('-'))
+        steps.insert(0, block('+'))
+    elif how == 'island':
+        # everything is switched off by a leading block directive, single statements switch
+        # themselves back on
+        cands = [st for st in steps if st['form'] not in W.NOCODE_FORMS and st['form'] not in NO_INLINE_FORMS and not st.get('inline')]
+        for st in rng.sample(cands, min(len(cands), rng.randint(1, 2))):
+            st['inline'] = [['-', 'SKIP', None]]
+            st['inline_at'] = rng.choice(['first', 'last'])
         steps.insert(0, block('+'))
     else:
         cands = [st for st in steps if st['form'] not in W.NOCODE_FORMS and st['form'] not in NO_INLINE_FORMS and not st.get('inline')]
